@@ -224,7 +224,7 @@ pub fn check_pool(c: &crate::props::c10::ParCase, st: &mut Stats) -> Result<(), 
     let workers = 2 + (c.workers % 9) as usize;
     // the configured capacity holds every connection of the trace even if all of them reach one worker
     let n_conn = c.trace.conns.len().max(1);
-    let max_conn = if kind == PoolKind::Http { n_conn } else { 4 * n_conn };
+    let max_conn = match kind { PoolKind::Http => n_conn, PoolKind::Tls => 2 * n_conn, PoolKind::Tcp => 4 * n_conn };
     let cfg = PoolCfg { workers, queue: frames.len() + 16, batch: 1 + (c.batch % 64) as usize, timeout_ms: 1 + (c.timeout_ms % 20) as u64, dispatchers: 1, perturb: Some(c.perturb), max_sleep_us: 100, max_conn };
     let run = run_pool(kind, &frames, &cfg, None, Some(clock)).map_err(|e| fail!("pool:new", "{e}"))?;
     if let Some(p) = &run.worker_panic {
